@@ -1,7 +1,7 @@
 """C20 (end to end) — comments of every element kind reach the docstrings of the emitted classes and methods intact."""
 import importlib
 
-from .base import client_method_name, module_of_file
+from .base import client_method_name, module_of_file, snake
 from .c02 import find_class
 from .. import model as M
 
@@ -60,5 +60,28 @@ def exercise(ctx):
                     if not in_order(norm(m["comment"]), norm(meth.__doc__ or "")):
                         ctx.violation("docstring-words", f"{cname}.{client_method_name(m['name'])}: the words of the RPC comment do not appear in order in its docstring",
                                       {"comment": m["comment"][:300], "doc": (meth.__doc__ or "")[:600]})
+        # the REST transport's per-method __call__ docstrings embed the request and response message comments
+        if "rest" in ctx.options.get("transport", ""):
+            for s in f.get("services", []):
+                try:
+                    tmod = importlib.import_module(module_of_file(ctx, f) + f".services.{snake(s['name'])}.transports.rest")
+                except ImportError:
+                    continue
+                tcls = getattr(tmod, s["name"] + "RestTransport", None)
+                for m in s["methods"]:
+                    stub = getattr(tcls, "_" + m["name"], None) if tcls else None
+                    if stub is None or not m.get("http") or m.get("cs"):
+                        continue
+                    doc = norm(stub.__call__.__doc__ or "")
+                    for what, tname in (("request", m["input"]), ("response", m["output"])):
+                        mm = M.find_message(ctx.api, tname)
+                        if mm is None or not mm.get("comment") or isinstance(mm["comment"], dict):
+                            continue
+                        if what == "response" and (m["output"] == ".google.protobuf.Empty"):
+                            continue
+                        checked += 1
+                        if not in_order(norm(mm["comment"]), doc):
+                            ctx.violation("docstring-words", f"{s['name']}RestTransport._{m['name']}.__call__: the words of the {what} message comment do "
+                                          f"not appear in order in its docstring", {"comment": mm["comment"][:300], "doc": (stub.__call__.__doc__ or "")[:800]})
     ctx.count("docstrings_checked", checked)
     ctx.sample({"docstrings_checked": checked})
